@@ -1,6 +1,6 @@
 (* Extraction of the executable models and specs to OCaml (ExtrOcamlBasic only). *)
 From Coq Require Import Extraction ExtrOcamlBasic.
-From Ubx Require Import Fields Base Checksum Frame ParserUbx ParserNmea CfgKeys.
+From Ubx Require Import Fields Base Checksum Frame ParserUbx ParserNmea CfgKeys FieldsSpec UbloxSpec.
 Extraction Language OCaml.
 Extraction "model.ml"
   N.add N.mul N.div N.modulo N.of_nat N.to_nat N.eqb N.ltb
@@ -9,4 +9,5 @@ Extraction "model.ml"
   new_frame to_bytes wire
   fresh run process nfresh nprocess nrestart count_sentences
   decode encode setf getf fresh_fields unpack_fields pack_fields
+  oracle_decode oracle_zero_reserved
   pack_item_cfg unpack_item_cfg from_key valset_payload valget_poll_payload valget_decode.
